@@ -337,3 +337,22 @@ def queued_orders(q):
         if it is not None and hasattr(it, 'asset'):
             out.append(it)
     return out
+
+
+_SCRATCH_BASE = None
+
+
+def scratch_dir(slot):
+    """a data directory for one use: the SAME path every time a slot is asked for (emptied first) — successive datasets of one
+    process live at one location, as successive runs of a user's script do; removed at exit"""
+    import atexit
+    import shutil
+    import tempfile
+    global _SCRATCH_BASE
+    if _SCRATCH_BASE is None:
+        _SCRATCH_BASE = tempfile.mkdtemp(prefix='qsv_data_')
+        atexit.register(shutil.rmtree, _SCRATCH_BASE, True)
+    d = os.path.join(_SCRATCH_BASE, slot)
+    shutil.rmtree(d, ignore_errors=True)
+    os.makedirs(d)
+    return d
